@@ -9,7 +9,7 @@ EXPLANATION = ("Encoders: every `From<X> for RawControl` / `From<X> for Exop` is
                "5805, 3296, 3062, 4532, 4511, draft relax); CriticalControl sets criticality on the wrapped control's own encoding. "
                "Decoders: PagedResults, SyncState, SyncDone, parse_syncinfo, ReadEntryResp, PasswordModifyResp, WhoAmIResp, StartTxnResp - "
                "which child ordinal / tag feeds which field, required class/tag checks, the EntryState and SyncInfo choice tables and the "
-               "RFC 4533 defaults (refreshDone TRUE, refreshDeletes FALSE). The control envelope codec is decided by C02 S14 / C03 T3. "
+               "RFC 4533 defaults (refreshDone TRUE, refreshDeletes FALSE). Envelope (Z13/Z14 encoder, Z.* decoder; the same rule functions as C02 S13/S14 and C03 T3): a control list is encoded as [0]{SEQ{OCTET type, BOOLEAN TRUE only-if critical, OCTET value only-if present}*} and decoded per control in *any* position of the list (loop-carried state included) as child 0 -> type, BOOLEAN -> criticality = content != 0, absent criticality -> false, absent value -> None. "
                "Not decided: byte-level equality of arbitrary cookies; lber's serialisation (C07).")
 TRUSTED = ['lber serialisation of a shape (C07)', 'RFC tables transcribed in this module']
 UNDECIDED = ['byte-level equality of arbitrary field contents', 'EndTxnResp (not in the property\'s list of response values)']
@@ -233,6 +233,10 @@ def run(ctx):
         ctx.add('Y.syncdone.coverage', need, loc(B.root), need in seen, 'no decoder path for the %s component' % need)
     # parse_syncinfo
     check_syncinfo(ctx, f)
+    # the control envelope both ways (shared rule functions)
+    from props import C02, C03
+    C02.check_envelope(ctx, f, 'Z')
+    C03.check_parse_controls(ctx, f, 'Z')
     # ReadEntryResp
     B = hirq.Body(f, f.body('<ldap3::controls_impl::read_entry::ReadEntryResp as ' + CP))
     ctx.analysed['bodies'].add(B.path)
